@@ -389,8 +389,17 @@ var propLife = hx.Prop[LCase]{
 			// stored next to it (same first hash digits)
 			o.NonTrivial = true
 			names := append(append([]string{}, hx.Siblings()...), hx.Bucket6()...)
-			for _, n := range names {
-				_, _ = st.AddMessage(hx.NewDelivery(n, nil, nil, time.Now().Add(-1000*time.Hour), "old", []byte("x")))
+			for k, n := range names {
+				// some of the mailboxes hold nothing to purge (young mail only): the scan has to notice
+				// the shutdown there as well
+				age := -1000 * time.Hour
+				if (k+c.DelayMs)%2 == 0 {
+					age = -time.Minute
+				}
+				_, _ = st.AddMessage(hx.NewDelivery(n, nil, nil, time.Now().Add(age), "m", []byte("x")))
+			}
+			for k := 0; k < 4; k++ {
+				_, _ = st.AddMessage(hx.NewDelivery(fmt.Sprintf("young%d", k), nil, nil, time.Now().Add(-time.Minute), "young", []byte("x")))
 			}
 			names = append(names, "b0", "b1", "b2")
 			// the moment: the walk arrives at the first of the sibling mailboxes
@@ -423,7 +432,9 @@ var propLife = hx.Prop[LCase]{
 					emptied = append(emptied, n)
 				}
 			}
-			if allowed := int(begunAtCancel.Load()) + 1; len(emptied) > allowed {
+			if b, a := int(begun.Load()), int(begunAtCancel.Load()); b > a+1 {
+				o.Failf(pid+":scan-goes-on-after-shutdown", "[%s] shutdown was requested when the scan had worked on %d mailboxes and was arriving at the next; it may finish that one, yet it went on to work on %d more", c.Backend, a, b-a-1)
+			} else if allowed := int(begunAtCancel.Load()) + 1; len(emptied) > allowed {
 				o.Failf(pid+":scan-goes-on-after-shutdown", "[%s] shutdown was requested when the scan had worked on %d mailboxes and was arriving at the next; it may finish that one, yet %d mailboxes were emptied: %v", c.Backend, allowed-1, len(emptied), emptied)
 			}
 		}
